@@ -289,7 +289,7 @@ package text
 //@ func ReadFile(filename string) (f *File, err error)
 //@   props C11,C14,C02
 //@   ensures  (f == nil) != (err == nil)
-//@   ensures  [own-file;C14] f != nil ==> fresh(f) && wfFile(f) && f.offset == 1 && f.lines == nil && f.filename == filename
+//@   ensures  [own-file;C14,C02,C09] f != nil ==> fresh(f) && wfFile(f) && f.offset == 1 && f.lines == nil && f.filename == filename
 //@   logs ioutil.ReadFile, os.ReadFile
 //@   ensures  [crlf;C11,C09,C08] f != nil ==> ncalls() == 1 && strof(f.data) == replaceAll(strof(callres[[]byte](1, 0)), "\r\n", "\n")
 //@   assigns  nothing
